@@ -852,6 +852,117 @@ pub fn verif_encode_formatter(
     res
 }
 
+/// Like `verif_encode_formatter`, but calls `FormattedChunk::encode` directly (no width
+/// handling around it).
+#[cfg(log4rs_verif)]
+#[doc(hidden)]
+pub fn verif_formatter_direct(
+    w: &mut dyn encode::Write,
+    record: &Record,
+    kind: u8,
+) -> io::Result<()> {
+    let chunk = match kind {
+        0 => FormattedChunk::Level,
+        1 => FormattedChunk::Message,
+        2 => FormattedChunk::Module,
+        3 => FormattedChunk::File,
+        4 => FormattedChunk::Line,
+        5 => FormattedChunk::Target,
+        6 => FormattedChunk::Newline,
+        7 => FormattedChunk::Thread,
+        8 => FormattedChunk::SystemThreadId,
+        9 => FormattedChunk::Highlight(Vec::new()),
+        10 => FormattedChunk::Debug(Vec::new()),
+        _ => FormattedChunk::Release(Vec::new()),
+    };
+    let res = chunk.encode(w, record);
+    std::mem::forget(chunk);
+    res
+}
+
+/// Feeds `pieces` (one `write_all` each) through the writer composition that `Chunk::encode`
+/// builds for a width spec and finishes it: `min_width` / `max_width` / alignment select the same
+/// composition as the six arms there (which are not exercised by this door-opener).
+#[cfg(log4rs_verif)]
+#[doc(hidden)]
+pub fn verif_width_writers(
+    w: &mut dyn encode::Write,
+    pieces: &[&[u8]],
+    spec: VerifSpec,
+) -> io::Result<()> {
+    use std::io::Write as _;
+    match (spec.min_width, spec.max_width, spec.right) {
+        (None, None, _) => {
+            for p in pieces {
+                w.write_all(p)?;
+            }
+            Ok(())
+        }
+        (None, Some(max_width), _) => {
+            let mut w = MaxWidthWriter {
+                remaining: max_width,
+                w,
+            };
+            for p in pieces {
+                w.write_all(p)?;
+            }
+            Ok(())
+        }
+        (Some(min_width), None, false) => {
+            let mut w = LeftAlignWriter {
+                to_fill: min_width,
+                fill: spec.fill,
+                w,
+            };
+            for p in pieces {
+                w.write_all(p)?;
+            }
+            w.finish()
+        }
+        (Some(min_width), None, true) => {
+            let mut w = RightAlignWriter {
+                to_fill: min_width,
+                fill: spec.fill,
+                w,
+                buf: vec![],
+            };
+            for p in pieces {
+                w.write_all(p)?;
+            }
+            w.finish()
+        }
+        (Some(min_width), Some(max_width), false) => {
+            let mut w = LeftAlignWriter {
+                to_fill: min_width,
+                fill: spec.fill,
+                w: MaxWidthWriter {
+                    remaining: max_width,
+                    w,
+                },
+            };
+            for p in pieces {
+                w.write_all(p)?;
+            }
+            w.finish()
+        }
+        (Some(min_width), Some(max_width), true) => {
+            let mut w = RightAlignWriter {
+                to_fill: min_width,
+                fill: spec.fill,
+                w: MaxWidthWriter {
+                    remaining: max_width,
+                    w,
+                },
+                buf: vec![],
+            };
+            for p in pieces {
+                w.write_all(p)?;
+            }
+            w.finish()
+        }
+    }
+}
+
 /// A deserializer for the `PatternEncoder`.
 ///
 /// # Configuration
